@@ -530,9 +530,12 @@ def write_evidence(rep, code):
                         "backend": v.backend})
     level = "proof"
     expl = None
+    if pinfo.get("partial"):
+        level = "other"
+        expl = "contract-based deductive verification for part of the property's scope, bounded stand-in for the rest: " + pinfo["partial"]
     if rep.demoted:
         level = "other"
-        expl = "some functions were outside the verified subset on this run and were only checked by the bounded " \
+        expl = (expl + " | " if expl else "") + "some functions were outside the verified subset on this run and were only checked by the bounded " \
                "stand-in (run-time contract checking on generated inputs): %s" % rep.demoted
     trusted = sorted(rep.trusted) + ["engine: pyvc translator + definitional instantiation", "SMT back ends z3 5.1 / cvc5 1.0.3"]
     ev = {
